@@ -154,12 +154,22 @@ def replay(texts, tps, ticks):
         got = wl.run_one_tick()
         prev = -1
         for p in got:
+            if p is _MINE:
+                # a list handed out earlier (and since then the consumer's own) was handed out again
+                order_bad = ("alias", t)
+                continue
             i = int(p.pipeline_id[1:])
             seen.setdefault(i, []).append(t)
             if i < prev:
                 order_bad = (t, prev, i)
             prev = i
+        # the delivered list now belongs to the consumer, which may extend it (merging several sources)
+        if not got or got[-1] is not _MINE:
+            got.append(_MINE)
     return seen, order_bad
+
+
+_MINE = object()
 
 
 def judge(texts, tps, ticks, seen, order_bad, mon, form):
@@ -190,7 +200,10 @@ def judge(texts, tps, ticks, seen, order_bad, mon, form):
             else:
                 mon.fail("late-delivery", f"'{txt}' @ {tps} ticks/s delivered in tick {d}, first tick at or after the arrival is {want}",
                          delivered_tick=d, **detail)
-    if order_bad:
+    if order_bad and order_bad[0] == "alias":
+        mon.fail("delivered-list-reused", f"tick {order_bad[1]}: the trace handed out a list object it had handed out before; "
+                                          f"what the consumer had put into it came back as arrivals", tps=tps)
+    elif order_bad:
         mon.fail("file-order", f"tick {order_bad[0]}: pipeline t{order_bad[2]} delivered after t{order_bad[1]} (file order broken)", tps=tps)
 
 
